@@ -13,10 +13,16 @@ Definition encode_cbor (w : wcfg) (c : claims) : option bytes :=
 
 (** DecodeClaimsFromCBOR with the two built-in profiles registered
     (profile 1 also as the default entry "") *)
+(** iclaims.go isCBORMap: the item under any number of tags *)
+Fixpoint strip_tags (t : cbor) : cbor :=
+  match t with CTag _ c => strip_tags c | x => x end.
+
 Definition decode_cbor (cc : ccfg) (w : wcfg) (b : bytes) : dres claims :=
   match parse_all b with
   | None => DErr
   | Some t =>
+      match strip_tags t with
+      | CMap _ =>
       match decode_selector t with
       | DOk name =>
           if match name with [] => true | _ => bytes_eqb name (prof1 cc) end
@@ -25,6 +31,8 @@ Definition decode_cbor (cc : ccfg) (w : wcfg) (b : bytes) : dres claims :=
           else DErr
       | DErr => DErr
       | DUnmodelled => DUnmodelled
+      end
+      | _ => DErr                       (* the (possibly tagged) top-level item is not a map *)
       end
   end.
 
